@@ -33,6 +33,10 @@ enum Step {
   /// original, k = the k-th clone; taken modulo their number): the object and
   /// its clones are then mutated and observed in turn
   Switch(usize),
+  /// `current.clone_from(&objects[k])` (k modulo their number, ignored when
+  /// it names the current object): the in-place form of cloning; the current
+  /// object continues with the donor's replacement list
+  CloneFrom(usize),
 }
 
 #[derive(Clone, Debug, Serialize, Deserialize)]
@@ -48,7 +52,7 @@ pub fn def() -> PropDef {
     gen,
     check,
     panic_policy: PanicPolicy::Violation,
-    rule: "random UTF-8 inner texts and histories (<=12 steps quick / <=30 thorough) mixing replace/insert/*_with_enforce calls (equal keys, overlaps, nesting, all enforce values, positions beyond the end) with observer calls (source, rope, buffer, size, to_writer, map, hash, stream, Debug, clone) and with switches between the object and the clones taken so far (each continues with its own replacement list); every observation is compared with the splice model of the replacement list at that moment; non-trivial = history has the pattern mutate, observe, mutate, observe with >=2 replacements; distinct = case fingerprint",
+    rule: "random UTF-8 inner texts and histories (<=12 steps quick / <=30 thorough) mixing replace/insert/*_with_enforce calls (equal keys, overlaps, nesting, all enforce values, positions beyond the end) with observer calls (source, rope, buffer, size, to_writer, map, hash, stream, Debug, clone) and with switches between the object and the clones taken so far (each continues with its own replacement list) and in-place clone_from between them; every observation is compared with the splice model of the replacement list at that moment; non-trivial = history has the pattern mutate, observe, mutate, observe with >=2 replacements; distinct = case fingerprint",
     cases: |t| match t {
       Tier::Quick => 300_000,
       Tier::Thorough => 4_000_000,
@@ -126,10 +130,10 @@ fn gen(rng: &mut Rng, tier: Tier) -> Value {
       }
       5..=8 => steps.push(Step::Observe(rng.below(11) as u8)),
       _ => {
-        if rng.chance(1, 2) {
-          steps.push(Step::Clone)
-        } else {
-          steps.push(Step::Switch(rng.below(4)))
+        match rng.below(5) {
+          0 | 1 => steps.push(Step::Clone),
+          2 | 3 => steps.push(Step::Switch(rng.below(4))),
+          _ => steps.push(Step::CloneFrom(rng.below(4))),
         }
       }
     }
@@ -266,6 +270,22 @@ fn check(case: &Value, obs: &mut Obs) {
         observe(&cl, 0, &expect, obs, "fresh clone", i);
         let ops = objs[cur].1.clone();
         objs.push((cl, ops, format!("clone taken at step {i}")));
+      }
+      Step::CloneFrom(k) => {
+        let k = k % objs.len();
+        if k != cur {
+          let (dst, src) = if cur < k {
+            let (l, r) = objs.split_at_mut(k);
+            (&mut l[cur], &r[0])
+          } else {
+            let (l, r) = objs.split_at_mut(cur);
+            (&mut r[0], &l[k])
+          };
+          dst.0.clone_from(&src.0);
+          dst.1 = src.1.clone();
+          obs.count("clone_from_calls", 1);
+          switched = true;
+        }
       }
       Step::Switch(k) => {
         let next = k % objs.len();
